@@ -5,8 +5,8 @@ R1  precedence / associativity table computed from the grammar rule layering (fo
     in the chain visitor.
 R2  ordered-choice hazards: no token alternative is a proper prefix of a later one; real before integer; `<=` array form
     before `<` before fixed.
-R3  token -> semantics chain: grammar literal -> visit_<rule> -> _expression.<fn> -> Any._<method> -> concrete
-    implementation ending in the Python operator / set operation the token means.
+R3  token -> semantics, extensionally: the callable the visitor yields for each operator token is applied to symbolic operands
+    (exprmodel) and the recorded result is compared with the Specification's operator on the same operands.
 R4  operand-swap discipline of the set-vs-scalar operators and of _auto_swap.
 R5  undefined => rejected: every default and every non-matching-type path raises an InvalidOperandError subclass.
 R6  exactness: literals are decoded exactly (int(..., base=0) / Fraction(text)); no float / math function on value paths.
@@ -16,8 +16,14 @@ from __future__ import annotations
 import ast
 from typing import Any, Dict, List, Optional, Set, Tuple
 
+import operator as _op
+from fractions import Fraction
+
+from ..absint import AObj, Raised, Recorder, _BoundMethod, construct
 from ..core import AnalysisError, ClassInfo, Ctx, External, FuncInfo, body_without_docstring, calls_in, dotted, norm, walk_no_nested
-from ..decide import paths_of
+from ..exprmodel import BV, QV, SV, ExprModel, _integer, _t, is_negative, is_zero
+from ..fold import Folder, Sym, Unfoldable, call_value
+from ..layout import explore
 from ..peg import Grammar
 
 EXPR = "_expression."
@@ -158,37 +164,69 @@ def rule_r1(ctx: Ctx, g: Grammar) -> List[Dict[str, Any]]:
             good = good and lvl["blanks"]
         ctx.check(good, "grammar." + lvl["rule"], "level %d: %s %s" % (i + 1, kind, sorted(lvl["tokens"])), "binding level %d must be %s over %s" % (i + 1, skind, sorted(stoks)), "%s:%d" % (g.path, g.lines.get(lvl["rule"], 0)), detail)
         ctx.count()
-    # the fold
-    pt = ctx.cls("_parser._ParseTreeProcessor")
-    chain_rules = [l["rule"] for l in levels if l["kind"].startswith("binary")]
-    fold_names = {pt.assigns[k].id for k in ("visit_" + r for r in chain_rules) if k in pt.assigns and isinstance(pt.assigns[k], ast.Name)}
-    wired = all(("visit_" + r) in pt.assigns for r in chain_rules) and len(fold_names) == 1
-    ctx.check(wired, pt.short, "chain visitors: %s" % sorted(fold_names), "every binary level is evaluated by the same chain-folding visitor", pt.module.relpath, [r for r in chain_rules if ("visit_" + r) not in pt.assigns])
-    if wired:
-        fold = pt.methods.get(fold_names.pop())
-        if fold is None:
-            raise AnalysisError("chain folding visitor not found")
-        body = body_without_docstring(fold.node)
-        ch = fold.params[2]
-        init = [st for st in body if isinstance(st, ast.Assign) and norm(st.value) == "%s[0]" % ch]
-        loops = [st for st in body if isinstance(st, ast.For) and norm(st.iter) == "%s[1]" % ch]
-        good = len(init) == 1 and len(loops) == 1
-        if good:
-            acc = norm(init[0].targets[0])
-            tgt = loops[0].target
-            names = [norm(x) for x in tgt.elts] if isinstance(tgt, ast.Tuple) else []
-            steps = [st for st in loops[0].body if isinstance(st, ast.Assign) and norm(st.targets[0]) == acc]
-            good = len(names) == 4 and len(steps) == 1 and norm(steps[0].value) == "%s(%s, %s)" % (names[1], acc, names[3])
-            rets = [st for st in body if isinstance(st, ast.Return)]
-            good = good and len(rets) == 1 and norm(rets[0].value) == acc
-        ctx.check(good, fold.short, "left = children[0]; for _, op, _, right in children[1]: left = op(left, right)", "operator chains are folded from the left in source order", fold.where())
-    # unary / single-child levels lift their child
-    for l in levels:
-        if l["kind"] == "unary-prefix":
-            v = pt.assigns.get("visit_" + l["rule"])
-            ctx.check(v is not None and norm(v).endswith("lift_child"), pt.short + ".visit_" + l["rule"], norm(v) if v is not None else "?", "a unary level passes its single child through", pt.module.relpath, nontrivial=False)
     ctx.sample({"rule": "C04.R1", "levels": [(l["rule"], l["kind"], sorted(l["tokens"])) for l in levels]})
     return levels
+
+
+def _handler(ctx: Ctx, m: ExprModel, pt: ClassInfo, rule: str) -> Any:
+    """what `visit_<rule>` of the parse tree processor is bound to, as a callable (node, children) -> value"""
+    repo = ctx.repo
+    name = "visit_" + rule
+    me = AObj(pt, ctx)
+    folder = Folder({"self": me}, repo, pt.module, pt, m.hook)
+
+    def bound(fn: FuncInfo) -> Any:
+        return lambda node, children: _BoundMethod(me, fn).call(folder, [node, children], {})
+
+    fn = repo.lookup_method(pt, name)
+    if fn is not None:
+        return bound(fn)
+    v = repo.lookup_class_attr(pt, name)
+    if v is None:
+        raise AnalysisError("the parse tree processor has no handler for the grammar rule %s" % rule)
+    if isinstance(v, ast.Name) and repo.lookup_method(pt, v.id) is not None:
+        return bound(repo.lookup_method(pt, v.id))
+    try:
+        h = Folder({}, repo, pt.module, pt, m.hook).fold(v)
+    except Unfoldable as ex:
+        raise AnalysisError("cannot evaluate the handler %s = %s: %s" % (name, norm(v), ex))
+    return lambda node, children: call_value(folder, h, [me, node, children])
+
+
+def rule_r1_fold(ctx: Ctx, m: ExprModel, levels: List[Dict[str, Any]]) -> None:
+    ctx.rule("C04.R1", "operator precedence and associativity computed from the grammar layering equal the Specification's table; chains are folded left to right", min_instances=10)
+    pt = ctx.cls("_parser._ParseTreeProcessor")
+    any_isa = frozenset({"Any"})
+    for l in levels:
+        if not l["kind"].startswith("binary"):
+            # a unary level passes its single child through
+            h = _handler(ctx, m, pt, l["rule"])
+            tok = Sym(_kind_="operand", _isa_=any_isa)
+            try:
+                got = h(Sym(_kind_="Node"), [tok])
+            except (Unfoldable, Raised) as ex:
+                raise AnalysisError("visit_%s: cannot evaluate over an abstract child: %s" % (l["rule"], ex))
+            ctx.check(got is tok, pt.short + ".visit_" + l["rule"], "lifts its child", "a unary level passes its single child through", pt.module.relpath, nontrivial=False)
+            continue
+        h = _handler(ctx, m, pt, l["rule"])
+        ops = [Recorder("op%d" % i) for i in range(3)]
+        for i, o in enumerate(ops):
+            o.result = (lambda i: lambda a, b: ("op%d" % i, a, b))(i)
+        xs = [Sym(_kind_="x%d" % i, _isa_=any_isa) for i in range(4)]
+        bad = []
+        for n in range(0, 4):
+            children = [xs[0], [[None, ops[i], None, xs[i + 1]] for i in range(n)]]
+            want: Any = xs[0]
+            for i in range(n):
+                want = ("op%d" % i, want, xs[i + 1])
+            try:
+                got = h(Sym(_kind_="Node"), children)
+            except (Unfoldable, Raised) as ex:
+                raise AnalysisError("visit_%s: cannot evaluate over an abstract operator chain: %s" % (l["rule"], ex))
+            ctx.count()
+            if got != want:
+                bad.append({"chain": "x0 " + " ".join("op%d x%d" % (i, i + 1) for i in range(n)), "found": repr(got)[:160], "expected": repr(want)[:160]})
+        ctx.check(not bad, pt.short + ".visit_" + l["rule"], "x0 op0 x1 op1 x2 op2 x3 -> op2(op1(op0(x0, x1), x2), x3)", "operator chains are folded from the left in source order", pt.module.relpath, bad[:2])
 
 
 def rule_r2(ctx: Ctx, g: Grammar) -> None:
@@ -238,256 +276,362 @@ def rule_r2(ctx: Ctx, g: Grammar) -> None:
         raise AnalysisError("C04.R2: only %d token alternations found" % n)
 
 
-def _single_call_return(fn: FuncInfo) -> Optional[ast.Call]:
-    """the call returned by a function with exactly one return statement (raw, locals not substituted)"""
-    rets = [n for n in walk_no_nested(fn.node) if isinstance(n, ast.Return)]
-    if len(rets) == 1 and isinstance(rets[0].value, ast.Call):
-        return rets[0].value
-    return None
+
+# ----------------------------------------------------------------------------------------------------------------------
+# The Specification's operator semantics over native values (applied to the symbolic operands the model uses)
+ARITH = {"+": _op.add, "-": _op.sub, "*": _op.mul, "/": _op.truediv, "%": _op.mod, "**": _op.pow}
+CMP = {"==": _op.eq, "!=": _op.ne, "<=": _op.le, ">=": _op.ge, "<": _op.lt, ">": _op.gt}
+BIT = {"|": _op.or_, "^": _op.xor, "&": _op.and_}
+LOGIC = {"||": lambda a, b: a or b, "&&": lambda a, b: a and b}
+SETCMP = {"==": lambda a, b: a == b, "!=": lambda a, b: a != b, "<=": lambda a, b: a <= b, ">=": lambda a, b: a >= b, "<": lambda a, b: a < b, ">": lambda a, b: a > b}
+SETBIT = {"|": lambda a, b: a | b, "^": lambda a, b: a ^ b, "&": lambda a, b: a & b}
+TOKENS = list(LOGIC) + list(CMP) + list(BIT) + list(ARITH)
+ERROR = ("error",)
 
 
-def rule_r3(ctx: Ctx, g: Grammar, levels: List[Dict[str, Any]]) -> None:
-    repo = ctx.repo
-    ctx.rule("C04.R3", "each operator token reaches the semantics it denotes: grammar literal -> visitor -> expression function -> Any method -> Rational/Set/Boolean/String implementation", min_instances=40)
+def _nfc(x: Any) -> Any:
+    return x if isinstance(x.term, tuple) and x.term[:2] == ("normalize", "NFC") else SV(("normalize", "NFC", x.term))
+
+
+def spec_binary(tok: str, lk: str, lv: Any, rk: str, rv: Any) -> Any:
+    """("value", kind, native) | ERROR | None (not decided here), for operand kinds and native values"""
+    if lk == rk == "Rational":
+        if tok in ARITH:
+            # value-dependent cases are decided along the explored run (the same decisions the evaluated code met)
+            if tok in ("/", "%") and is_zero(rv):
+                return ERROR
+            if tok == "**":
+                if _integer(rv):
+                    if is_negative(rv) and is_zero(lv):
+                        return ERROR
+                elif is_negative(lv):
+                    return ERROR  # not a real number
+            return ("value", "Rational", ARITH[tok](lv, rv))
+        if tok in CMP:
+            return ("value", "Boolean", CMP[tok](lv, rv))
+        if tok in BIT:
+            li = lv.integer if isinstance(lv, QV) else True
+            ri = rv.integer if isinstance(rv, QV) else True
+            return ("value", "Rational", BIT[tok](lv, rv)) if li and ri else ERROR
+        return ERROR
+    if lk == rk == "Boolean":
+        if tok in LOGIC:
+            return ("value", "Boolean", LOGIC[tok](lv, rv))
+        if tok in ("==", "!="):
+            return ("value", "Boolean", (lv == rv) if tok == "==" else (lv != rv))
+        return ERROR
+    if lk == rk == "String":
+        if tok == "+":
+            return ("value", "String", lv + rv)
+        if tok in ("==", "!="):
+            return ("value", "Boolean", CMP[tok](_nfc(lv), _nfc(rv)))
+        return ERROR
+    if lk == rk == "Set":
+        if tok in SETCMP:
+            return ("value", "Boolean", SETCMP[tok](frozenset(lv), frozenset(rv)))
+        if tok in SETBIT:
+            r = SETBIT[tok](frozenset(lv), frozenset(rv))
+            return ("value", "Set", r) if r else ERROR  # an empty set cannot be represented
+        return ERROR  # logical and arithmetic operators between two sets are undefined
+    if {lk, rk} == {"Set", "Rational"}:
+        if tok in ARITH:
+            elems = []
+            for x in lv if lk == "Set" else rv:
+                r = spec_binary(tok, "Rational", x, "Rational", rv) if lk == "Set" else spec_binary(tok, "Rational", lv, "Rational", x)
+                if r == ERROR:
+                    return ERROR
+                elems.append(r[2])
+            return ("value", "Set", frozenset(elems))
+        return ERROR
+    return ERROR
+
+
+def _sometimes_defined(tok: str, lv: Any, rv: Any) -> bool:
+    return any(r != ERROR for _, r in explore(lambda: spec_binary(tok, "Rational", lv, "Rational", rv)))
+
+
+def _sometimes_undefined(tok: str, lv: Any, rv: Any) -> bool:
+    return any(r == ERROR for _, r in explore(lambda: spec_binary(tok, "Rational", lv, "Rational", rv)))
+
+
+def _canon(kind: str, native: Any) -> Any:
+    if kind == "Set":
+        return sorted(repr(_t(x)) for x in native)
+    if isinstance(native, (BV,)):
+        return bool(native)  # decided along the run being explored
+    return repr(_t(native)) if isinstance(native, (QV, SV)) else native
+
+
+class _Operands:
+    def __init__(self, ctx: Ctx, m: ExprModel):
+        self.m = m
+        self.ioe = ctx.cls(EXPR + "_any.InvalidOperandError")
+        self.ctx = ctx
+        v = m.value
+        self.ints = [QV("i", True), QV("j", True)]
+        self.fracs = [QV("p", False), QV("q", False)]
+        self.rationals = {"integer i": self.ints[0], "integer j": self.ints[1], "non-integer p": self.fracs[0], "non-integer q": self.fracs[1], "zero": Fraction(0)}
+        self.strings = {"string s": SV("s"), "string t": SV("t")}
+        self.pool = [QV("e1", True), QV("e2", True), QV("e3", True)]
+        self.pool_objs = [v("Rational", x) for x in self.pool]
+        self.obj_native = {id(o): n for o, n in zip(self.pool_objs, self.pool)}
+
+    def rational(self, n: Any) -> Any:
+        return self.m.value("Rational", n)
+
+    def sets(self) -> List[Tuple[str, Any, List[Any]]]:
+        out = []
+        for mask in range(1, 8):
+            objs = [o for i, o in enumerate(self.pool_objs) if mask >> i & 1]
+            out.append(("{%s}" % ", ".join("e%d" % (i + 1) for i in range(3) if mask >> i & 1), self.m.value("Set", list(objs)), [self.pool[i] for i in range(3) if mask >> i & 1]))
+        return out
+
+    def is_rejection(self, r: Raised) -> bool:
+        k = None
+        for c in self.ctx.repo.all_classes().values():
+            if c.name == r.cls_name:
+                k = c
+        return k is not None and self.ctx.repo.is_subclass(k, self.ioe)
+
+    def observe(self, run: Any, want_fn: Any) -> Optional[Dict[str, Any]]:
+        """evaluate `run` (-> expression value) along every abstract branch and the Specification's result `want_fn()` under
+        the same decisions; None if they always agree"""
+        m = self.m
+        if not callable(want_fn):
+            fixed = want_fn
+            want_fn = lambda: fixed  # noqa: E731
+
+        def once() -> Any:
+            try:
+                r = run()
+                if not isinstance(r, AObj):
+                    got: Any = ("not-a-value", repr(r)[:80])
+                else:
+                    kind = r._cls_.name
+                    nat = [m.native(x) for x in m.elements(r)] if kind == "Set" else m.native(r)
+                    got = ("value", kind, _canon(kind, nat))
+            except Raised as ex:
+                got = ERROR if self.is_rejection(ex) else ("raises", ex.cls_name)
+            want = want_fn()
+            exp = want if want == ERROR else ("value", want[1], _canon(want[1], want[2]))
+            return (got, exp)
+
+        try:
+            runs = explore(once, max_runs=256)
+        except Unfoldable as ex:
+            raise AnalysisError("cannot evaluate over symbolic operands: %s" % ex)
+        for assumptions, (got, exp) in runs:
+            if got != exp:
+                return {"found": "rejected as an invalid operand" if got == ERROR else repr(got)[:160], "expected": "rejected as an invalid operand" if exp == ERROR else repr(exp)[:160], "when": [repr(a)[:80] for a in assumptions][:4]}
+        return None
+
+
+def _operator_functions(ctx: Ctx, m: ExprModel, g: Grammar) -> Tuple[Dict[str, Any], Dict[str, Any]]:
+    """token -> the callable the parser's visitor yields for the token's grammar rule (evaluated from source)"""
     pt = ctx.cls("_parser._ParseTreeProcessor")
-    opmod = repo.module("_expression._operator")
-    rat = ctx.cls(EXPR + "_primitive.Rational")
-    st = ctx.cls(EXPR + "_container.Set")
-    # token -> op2 rule name
-    tok_rule: Dict[str, str] = {}
+    binary: Dict[str, Any] = {}
     for name, node in g.rules.items():
-        if name.startswith("op2_") and node[0] == "lit":
-            tok_rule[node[1]] = name
-    for tok, (fname, meth) in BINARY.items():
-        rule = tok_rule.get(tok)
-        v = pt.assigns.get("visit_" + rule) if rule else None
-        wired = None
-        if isinstance(v, ast.Call) and dotted(v.func) == "_make_binary_operator_handler" and len(v.args) == 1:
-            r = repo.resolve_expr(pt.module, v.args[0], pt)
-            wired = r.name if isinstance(r, FuncInfo) else None
-        ctx.check(wired == fname, "_parser._ParseTreeProcessor.visit_%s" % rule, "'%s' -> %s" % (tok, wired), "token %r must evaluate as %s" % (tok, fname), pt.module.relpath)
-        fn = opmod.functions.get(fname)
-        if fn is None:
-            ctx.fail("_expression._operator." + fname, "missing", "expression function missing", where=opmod.relpath)
-            continue
-        if meth is None:
-            call = _single_call_return(fn) or next((c for c in calls_in(fn.node) if dotted(c.func) == "logical_not"), None)
-            src = norm(fn.node)
-            ctx.check("logical_not(equal(left, right))" in src, fn.short, "not (left == right)", "`!=` is the negation of `==` on the same operands in the same order", fn.where())
-            continue
-        calls = [c for c in calls_in(fn.node) if isinstance(c.func, ast.Attribute) and c.func.attr.startswith("_") and norm(c.func.value) == fn.params[0]]
-        good = len(calls) == 1 and calls[0].func.attr == meth and [norm(a) for a in calls[0].args] == [fn.params[1]]  # type: ignore
-        ctx.check(good, fn.short, "%s.%s(%s)" % (fn.params[0], calls[0].func.attr if calls else "?", fn.params[1]), "%s must dispatch to the left operand's %s with the right operand" % (fname, meth), fn.where())  # type: ignore
-        # Rational implementation
-        if meth in RATIONAL_IMPL:
-            m = rat.methods.get(meth)
-            impl = None
-            if m is not None:
-                c = _single_call_return(m)
-                if c is not None and len(c.args) == 2 and norm(c.args[0]) == m.params[1]:
-                    d = dotted(c.args[1]) or ""
-                    impl = d.split(".")[-1] if d.startswith("operator.") else None
-                    helper = c.func.attr if isinstance(c.func, ast.Attribute) else None
-                    want_helper = "_generic_compare" if meth in ("_equal", "_less_or_equal", "_greater_or_equal", "_less", "_greater") else ("_generic_bitwise" if "bitwise" in meth else "_generic_arithmetic")
-                    if helper != want_helper:
-                        impl = "%s via %s" % (impl, helper)
-            ctx.check(impl == RATIONAL_IMPL[meth], rat.short + "." + meth, "operator.%s" % impl, "%r on rationals is Python's operator.%s on the exact fractions" % (tok, RATIONAL_IMPL[meth]), m.where() if m else rat.module.relpath)
-        if meth in SET_IMPL:
-            m = st.methods.get(meth)
-            got = _set_semantics(ctx, st, m) if m is not None else None
-            ctx.check(got == SET_IMPL[meth], st.short + "." + meth, str(got), "%r on sets is %s" % (tok, SET_IMPL[meth]), m.where() if m else st.module.relpath)
-    # generic helpers apply impl(self, right) in that order
-    for helper in ("_generic_compare", "_generic_arithmetic"):
-        m = rat.methods.get(helper)
-        if m is None:
-            raise AnalysisError("anchor Rational.%s missing" % helper)
-        calls = [c for c in calls_in(m.node) if isinstance(c.func, ast.Name) and c.func.id == m.params[2]]
-        good = len(calls) == 1 and [norm(a) for a in calls[0].args] == ["self._value", "%s._value" % m.params[1]]
-        ctx.check(good, m.short, norm(calls[0]) if calls else "?", "the operator is applied to (left value, right value) in that order", m.where())
-    m = rat.methods.get("_generic_bitwise")
-    calls = [c for c in calls_in(m.node) if isinstance(c.func, ast.Name) and c.func.id == m.params[2]] if m else []
-    good = len(calls) == 1 and [norm(a) for a in calls[0].args] == ["self.as_native_integer()", "%s.as_native_integer()" % m.params[1]]
-    ctx.check(good, rat.short + "._generic_bitwise", norm(calls[0]) if calls else "?", "bitwise operators work on exact integers (non-integers are rejected by as_native_integer)", m.where() if m else "")
+        if name.startswith("op2_") and node[0] == "lit" and node[1] in TOKENS:
+            h = _handler(ctx, m, pt, name)
+            try:
+                binary[node[1]] = h(Sym(_kind_="Node", text=node[1]), [])
+            except (Unfoldable, Raised) as ex:
+                raise AnalysisError("visit_%s: cannot evaluate: %s" % (name, ex))
+    missing = [t for t in TOKENS if t not in binary]
+    if missing:
+        raise AnalysisError("no grammar rule / handler found for the operator tokens %s" % missing)
+    unary: Dict[str, Any] = {}
+    for name, node in g.rules.items():
+        if name.startswith("op1_form_") and node[0] == "seq" and node[1] and node[1][0][0] == "lit":
+            tok = node[1][0][1]
+            h = _handler(ctx, m, pt, name)
+            unary[tok] = (lambda h, tok: lambda operand: h(Sym(_kind_="Node"), [Sym(_kind_="Node", _isa_=frozenset({"Node"}), text=tok), None, operand]))(h, tok)
+    if sorted(unary) != ["!", "+", "-"]:
+        raise AnalysisError("unary operator forms found in the grammar: %s" % sorted(unary))
+    return binary, unary
+
+
+def rule_r3_r4_r5(ctx: Ctx, g: Grammar, m: ExprModel) -> None:
+    ctx.rule("C04.R3", "each operator token, taken from the grammar through the visitor to the value classes, computes what it denotes: the recorded operator on the exact operands, in source order (symbolic operands: all values)", min_instances=37)
+    ctx.rule("C04.R4", "set (op) scalar and scalar (op) set apply the operator element-wise with the operands in source order", min_instances=12)
+    ctx.rule("C04.R5", "undefined operand combinations are rejected with an invalid-operand error: mismatched kinds, non-integers in bitwise operators, division by zero, empty / heterogeneous sets", min_instances=70)
+    binary, unary = _operator_functions(ctx, m, g)
+    O = _Operands(ctx, m)
+    call = m.call
+    where = "pydsdl/_expression"
+    # Rational x Rational
+    pairs = [("integer i", "integer j"), ("integer i", "non-integer q"), ("non-integer p", "integer j"), ("non-integer p", "non-integer q"), ("integer i", "zero"), ("non-integer p", "zero"), ("integer i", "integer i")]
+    for tok in TOKENS:
+        bad3, bad5 = [], []
+        for ln, rn in pairs:
+            lv, rv = O.rationals[ln], O.rationals[rn]
+            L, R = O.rational(lv), O.rational(rv)
+            d = O.observe(lambda: call(binary[tok], L, R), lambda: spec_binary(tok, "Rational", lv, "Rational", rv))
+            ctx.count()
+            if d:
+                d["operands"] = "%s %s %s" % (ln, tok, rn)
+                (bad5 if d["expected"].startswith("rejected") else bad3).append(d)
+        n_def = sum(1 for ln, rn in pairs if _sometimes_defined(tok, O.rationals[ln], O.rationals[rn]))
+        if n_def:
+            ctx.check(not bad3, "rational %s rational" % tok, "%d operand sorts" % n_def, "%r on rationals is the exact operator on (left, right)" % tok, where, bad3[:3], rule="C04.R3")
+        n_undef = sum(1 for ln, rn in pairs if _sometimes_undefined(tok, O.rationals[ln], O.rationals[rn]))
+        if n_undef:
+            ctx.check(not bad5, "rational %s rational (undefined cases)" % tok, "%d operand sorts" % n_undef, "%r is rejected for these rational operands (non-integers in bitwise operators, zero divisors, zero to a negative power, fractional powers of negative numbers, logical operators)" % tok, where, bad5[:3], rule="C04.R5")
+    # Boolean x Boolean: the whole domain
+    for tok in TOKENS:
+        bad = []
+        for a in (False, True):
+            for b in (False, True):
+                want = spec_binary(tok, "Boolean", a, "Boolean", b)
+                L, R = m.value("Boolean", a), m.value("Boolean", b)
+                d = O.observe(lambda: call(binary[tok], L, R), want)
+                ctx.count()
+                if d:
+                    d["operands"] = "%s %s %s" % (a, tok, b)
+                    bad.append(d)
+        defined = spec_binary(tok, "Boolean", True, "Boolean", True) != ERROR
+        ctx.check(not bad, "boolean %s boolean" % tok, "truth table" if defined else "rejected", "%r on booleans: %s" % (tok, "its truth table" if defined else "undefined"), where, bad[:3], rule="C04.R3" if defined else "C04.R5")
+    # String x String
+    for tok in TOKENS:
+        want = spec_binary(tok, "String", O.strings["string s"], "String", O.strings["string t"])
+        L, R = m.value("String", O.strings["string s"]), m.value("String", O.strings["string t"])
+        d = O.observe(lambda: call(binary[tok], L, R), want)
+        ctx.count()
+        ctx.check(d is None, "string %s string" % tok, "s %s t" % tok, "%r on strings: %s" % (tok, "concatenation / comparison of the NFC-normalised texts" if want != ERROR else "undefined"), where, d, rule="C04.R3" if want != ERROR else "C04.R5")
+    # Set x Set over every pair of non-empty subsets of a three-element pool (every Venn pattern)
+    sets = O.sets()
+    for tok in TOKENS:
+        bad3, bad5 = [], []
+        for ln, L, lv in sets:
+            for rn, R, rv in sets:
+                want = spec_binary(tok, "Set", lv, "Set", rv)
+                d = O.observe(lambda: call(binary[tok], L, R), want)
+                ctx.count()
+                if d:
+                    d["operands"] = "%s %s %s" % (ln, tok, rn)
+                    (bad5 if want == ERROR else bad3).append(d)
+        if tok in LOGIC or tok in ARITH:
+            ctx.check(not bad5 and not bad3, "set %s set" % tok, "rejected", "%r between two sets is undefined" % tok, where, (bad5 + bad3)[:3], rule="C04.R5")
+        else:
+            ctx.check(not bad3 and not bad5, "set %s set" % tok, "49 pairs of subsets", "%r on sets is the %s" % (tok, "subset relation" if tok in SETCMP else "set operation (an empty result is rejected)"), where, (bad3 + bad5)[:3], rule="C04.R3")
+    # Set x scalar, scalar x Set
+    s2 = [x for x in sets if x[0] == "{e1, e2}"][0]
+    for tok in TOKENS:
+        for order in ("set-scalar", "scalar-set"):
+            sv = O.rationals["integer i"]
+            S = O.rational(sv)
+            if order == "set-scalar":
+                d = O.observe(lambda: call(binary[tok], s2[1], S), lambda: spec_binary(tok, "Set", s2[2], "Rational", sv))
+                label = "{e1, e2} %s i" % tok
+            else:
+                d = O.observe(lambda: call(binary[tok], S, s2[1]), lambda: spec_binary(tok, "Rational", sv, "Set", s2[2]))
+                label = "i %s {e1, e2}" % tok
+            ctx.count()
+            if tok in ARITH:
+                ctx.check(d is None, label, "element-wise", "the operator is applied to each element with the scalar on its original side", where, d, rule="C04.R4")
+            else:
+                ctx.check(d is None, label, "rejected", "%r between a set and a scalar is undefined" % tok, where, d, rule="C04.R5")
+    # mismatched kinds
+    samples = {"Rational": O.rational(O.ints[0]), "Boolean": m.value("Boolean", True), "String": m.value("String", O.strings["string s"]), "Set": s2[1]}
+    for lk, rk in (("Rational", "Boolean"), ("Boolean", "Rational"), ("Rational", "String"), ("String", "Rational"), ("Boolean", "String"), ("String", "Boolean"), ("Set", "Boolean"), ("Boolean", "Set"), ("Set", "String"), ("String", "Set")):
+        bad = []
+        for tok in TOKENS:
+            d = O.observe(lambda: call(binary[tok], samples[lk], samples[rk]), ERROR)
+            ctx.count()
+            if d:
+                d["operands"] = "%s %s %s" % (lk, tok, rk)
+                bad.append(d)
+        ctx.check(not bad, "%s (op) %s" % (lk.lower(), rk.lower()), "all %d operators rejected" % len(TOKENS), "operators between different kinds of values are undefined", where, bad[:3], rule="C04.R5")
     # unary
-    unary = {"!": ("visit_op1_form_log_not", "logical_not", "_logical_not"), "+": ("visit_op1_form_inv_pos", "positive", "_positive"), "-": ("visit_op1_form_inv_neg", "negative", "_negative")}
-    for tok, (vis, fname, meth) in unary.items():
-        v = pt.methods.get(vis)
-        rule = vis[len("visit_"):]
-        lit = g.rule(rule)[1][0] if g.rule(rule)[0] == "seq" else None
-        c = _single_call_return(v) if v else None
-        r = repo.resolve_expr(pt.module, c.func, pt) if c is not None else None
-        good = lit == ("lit", tok) and isinstance(r, FuncInfo) and r.name == fname and len(c.args) == 1
-        if good:
-            # the operand is the last child of the form
-            unpack = [s for s in body_without_docstring(v.node) if isinstance(s, ast.Assign) and isinstance(s.targets[0], ast.Tuple)]
-            good = len(unpack) == 1 and norm(unpack[0].targets[0].elts[-1]) == norm(c.args[0])
-        ctx.check(good, pt.short + "." + vis, "'%s' -> %s" % (tok, getattr(r, "name", None)), "unary %r evaluates as %s of its operand" % (tok, fname), v.where() if v else pt.module.relpath)
-        fn = opmod.functions.get(fname)
-        calls = [x for x in calls_in(fn.node) if isinstance(x.func, ast.Attribute) and x.func.attr == meth and norm(x.func.value) == fn.params[0]] if fn else []
-        ctx.check(len(calls) == 1, "_expression._operator." + fname, "operand.%s()" % meth, "%s dispatches to %s" % (fname, meth), fn.where() if fn else "", nontrivial=False)
-    for meth, want in (("_positive", "Rational(+self._value)"), ("_negative", "Rational(-self._value)")):
-        m = rat.methods.get(meth)
-        c = _single_call_return(m) if m else None
-        ctx.check(c is not None and norm(c) == want, rat.short + "." + meth, norm(c) if c else "?", "unary sign on the exact fraction", m.where() if m else "")
-    bl = ctx.cls(EXPR + "_primitive.Boolean")
-    for meth, want in (("_logical_not", "Boolean(not self._value)"), ("_logical_and", "Boolean(self._value and right._value)"), ("_logical_or", "Boolean(self._value or right._value)"), ("_equal", "Boolean(self._value == right._value)")):
-        m = bl.methods.get(meth)
-        rets = [norm(p.value) for p in paths_of(m.node) if p.kind == "return"] if m else []
-        ctx.check(rets == [want], bl.short + "." + meth, str(rets), "boolean %s" % meth, m.where() if m else "")
+    for tok, kind, native, want in (
+        ("!", "Boolean", True, ("value", "Boolean", False)), ("!", "Boolean", False, ("value", "Boolean", True)),
+        ("-", "Rational", O.fracs[0], ("value", "Rational", -O.fracs[0])), ("+", "Rational", O.fracs[0], ("value", "Rational", +O.fracs[0])),
+        ("-", "Rational", O.ints[0], ("value", "Rational", -O.ints[0])),
+    ):
+        X = m.value(kind, native)
+        d = O.observe(lambda: unary[tok](X), want)
+        ctx.count()
+        ctx.check(d is None, "%s %s" % (tok, kind.lower()), repr(want[2])[:40], "unary %r on a %s" % (tok, kind.lower()), where, d, rule="C04.R3")
+    for tok, kinds in (("!", ("Rational", "String", "Set")), ("-", ("Boolean", "String", "Set")), ("+", ("Boolean", "String", "Set"))):
+        bad = []
+        for k in kinds:
+            d = O.observe(lambda: unary[tok](samples[k]), ERROR)
+            ctx.count()
+            if d:
+                d["operand"] = k
+                bad.append(d)
+        ctx.check(not bad, "%s (non-%s)" % (tok, "boolean" if tok == "!" else "rational"), "rejected", "unary %r is undefined for other kinds of values" % tok, where, bad[:3], rule="C04.R5")
+    # sets of different element types do not combine
+    sset = m.value("Set", [m.value("String", O.strings["string s"])])
+    bad = []
+    for tok in list(CMP) + list(BIT):
+        for L, R in ((s2[1], sset), (sset, s2[1])):
+            d = O.observe(lambda: call(binary[tok], L, R), ERROR)
+            ctx.count()
+            if d:
+                d["operator"] = tok
+                bad.append(d)
+    ctx.check(not bad, "set of rationals (op) set of strings", "rejected", "set operators are defined between sets of the same element type only", where, bad[:3], rule="C04.R5")
+    # sets must be non-empty and homogeneous
+    for label, elems in (("empty set", []), ("heterogeneous set", [samples["Rational"], samples["Boolean"]])):
+        try:
+            construct(ctx, ctx.cls(EXPR + "_container.Set"), list(elems), hook=m.hook)
+            found = "accepted"
+        except Raised as r:
+            found = "rejected" if O.is_rejection(r) else "raises " + r.cls_name
+        except Unfoldable as ex:
+            raise AnalysisError("Set(%s): cannot evaluate: %s" % (label, ex))
+        ctx.count()
+        ctx.check(found == "rejected", "Set(%s)" % label, found, "sets must be non-empty and homogeneous", where, rule="C04.R5")
     # attribute operator
-    v = pt.methods.get("visit_op2_attrib")
-    rets = [p for p in paths_of(v.node) if p.kind == "return"] if v else []
-    r = repo.resolve_expr(pt.module, rets[0].value, pt) if rets else None
-    ctx.check(isinstance(r, FuncInfo) and r.name == "attribute", pt.short + ".visit_op2_attrib", "'.' -> %s" % getattr(r, "name", None), "`.` evaluates as the attribute operator", v.where() if v else "")
-    at = opmod.functions.get("attribute")
-    calls = [c for c in calls_in(at.node) if isinstance(c.func, ast.Attribute) and c.func.attr == "_attribute"] if at else []
-    ctx.check(len(calls) == 1 and norm(calls[0].func.value) == at.params[0] and norm(calls[0].args[0]) == at.params[1], "_expression._operator.attribute", norm(calls[0]) if calls else "?", "value._attribute(name)", at.where() if at else "", nontrivial=False)
-
-
-def _set_semantics(ctx: Ctx, st: ClassInfo, m: FuncInfo) -> Optional[str]:
-    """resolve Set._X through its helper to the frozenset operation"""
-    rets = [p for p in paths_of(m.node) if p.kind == "return"]
-    if len(rets) != 1:
-        return None
-    v = rets[0].value
-    # Boolean(self._helper(right)) or self._helper(right)
-    if isinstance(v, ast.Call) and (dotted(v.func) or "").endswith("Boolean") and len(v.args) == 1:
-        v = v.args[0]
-    if not (isinstance(v, ast.Call) and isinstance(v.func, ast.Attribute) and norm(v.func.value) == "self" and [norm(a) for a in v.args] == [m.params[1]]):
-        return None
-    return _set_helper(ctx, st, v.func.attr, 0)
-
-
-def _set_helper(ctx: Ctx, st: ClassInfo, name: str, depth: int) -> Optional[str]:
-    h = st.methods.get(name)
-    if h is None or depth > 2:
-        return None
-    rets = [p for p in paths_of(h.node) if p.kind == "return"]
-    if len(rets) != 1:
-        return None
-    v = rets[0].value
-    s = norm(v)
-    other = h.params[1]
-    if s == "self._value == %s._value" % other:
-        return "=="
-    if isinstance(v, ast.Call) and (dotted(v.func) or "").endswith("Set") and len(v.args) == 1:
-        v = v.args[0]
-        s = norm(v)
-    for op in ("issubset", "issuperset", "union", "intersection", "symmetric_difference"):
-        if s == "self._value.%s(%s._value)" % (op, other):
-            return op
-    # proper subset / superset: A and not equal
-    if isinstance(v, ast.BoolOp) and isinstance(v.op, ast.And) and len(v.values) == 2:
-        a, b = v.values
-        if isinstance(a, ast.Call) and isinstance(a.func, ast.Attribute) and isinstance(b, ast.UnaryOp) and isinstance(b.op, ast.Not) and isinstance(b.operand, ast.Call) and isinstance(b.operand.func, ast.Attribute):
-            base = _set_helper(ctx, st, a.func.attr, depth + 1)
-            eq = _set_helper(ctx, st, b.operand.func.attr, depth + 1)
-            if base in ("issubset", "issuperset") and eq == "==" and [norm(x) for x in a.args] == [other] and [norm(x) for x in b.operand.args] == [other]:
-                return "proper " + base
-    return None
-
-
-def rule_r4(ctx: Ctx) -> None:
-    repo = ctx.repo
-    ctx.rule("C04.R4", "operand swapping: Set._X_right applies the same operator with the scalar on the left; _auto_swap uses the mirrored comparison / the same commutative operator / _X_right, only when operand types differ", min_instances=20)
-    st = ctx.cls(EXPR + "_container.Set")
-    ew = st.methods.get("_elementwise")
-    if ew is None:
-        raise AnalysisError("anchor Set._elementwise missing")
-    src = norm(ew.node)
-    impl, other, swap = ew.params[1], ew.params[2], ew.params[3]
-    good = ("%s(%s, x) if %s else %s(x, %s)" % (impl, other, swap, impl, other)) in src and "for x in self" in src
-    ctx.check(good, ew.short, "impl(other, x) if swap else impl(x, other)", "element-wise application keeps the scalar on its original side", ew.where())
-    for op in ("add", "subtract", "multiply", "divide", "modulo", "power"):
-        for suffix, want_swap in (("", False), ("_right", True)):
-            m = st.methods.get("_%s%s" % (op, suffix))
-            c = _single_call_return(m) if m else None
-            good = False
-            if c is not None and isinstance(c.func, ast.Attribute) and c.func.attr == "_elementwise" and len(c.args) >= 2:
-                r = repo.resolve_expr(st.module, c.args[0], st)
-                sw = any(k.arg == swap and norm(k.value) == "True" for k in c.keywords) or (len(c.args) == 3 and norm(c.args[2]) == "True")
-                good = isinstance(r, FuncInfo) and r.name == op and norm(c.args[1]) == m.params[1] and sw == want_swap
-            ctx.check(good, st.short + "._%s%s" % (op, suffix), norm(c) if c else "?", "set %s scalar / scalar %s set apply `%s` element-wise with the operands in source order" % (op, op, op), m.where() if m else st.module.relpath)
-    # _auto_swap
-    opmod = repo.module("_expression._operator")
-    aswap = opmod.functions.get("_auto_swap")
-    if aswap is None:
-        raise AnalysisError("anchor _auto_swap missing")
-    wrapper = aswap.nested["decorator"].nested["wrapper"]
-    wsrc = norm(wrapper.node)
-    good = "except _any.UndefinedOperatorError" in wsrc and "if type(left) != type(right)" in wsrc and "getattr(right, alternative_method_name)(left)" in wsrc and "direct_operator(left, right)" in wsrc
-    ctx.check(good, wrapper.short, "try direct(left, right); on UndefinedOperatorError and different types: right.<alt>(left)", "the swapped form is attempted only for operands of different types, with the operands exchanged", wrapper.where())
-    dsrc = norm(aswap.nested["decorator"].node)
-    ctx.check("'_' + alternative_operator_name" in dsrc and "'_%s_right' % direct_operator.__name__" in dsrc, aswap.short, "alt = '_' + name | '_<op>_right'", "the alternative method name is the given mirrored operator or `_<op>_right`", aswap.where(), nontrivial=False)
-    for fname, fn in opmod.functions.items():
-        decos = [d for d in fn.node.decorator_list if isinstance(d, ast.Call) and dotted(d.func) == "_auto_swap"]
-        if not decos:
-            continue
-        arg = decos[0].args[0].value if decos[0].args and isinstance(decos[0].args[0], ast.Constant) else None
-        want = MIRROR.get(fname)
-        ctx.check(arg == want, fn.short, "@_auto_swap(%r)" % arg, "the swapped alternative of %s must be %s" % (fname, want or "_%s_right" % fname), fn.where())
-
-
-def rule_r5(ctx: Ctx) -> None:
-    repo = ctx.repo
-    ctx.rule("C04.R5", "undefined operand combinations are rejected: Any defaults raise Undefined*Error, every override ends its non-matching-type path in such a raise; empty / heterogeneous sets are rejected", min_instances=40)
-    any_c = ctx.cls(EXPR + "_any.Any")
-    ioe = ctx.cls(EXPR + "_any.InvalidOperandError")
-    n = 0
-    for name, m in any_c.methods.items():
-        if not name.startswith("_") or name.startswith("__"):
-            continue
-        body = body_without_docstring(m.node)
-        good = len(body) == 1 and isinstance(body[0], ast.Raise)
-        if good:
-            k = repo.resolve_expr(m.module, body[0].exc.func if isinstance(body[0].exc, ast.Call) else body[0].exc, any_c)  # type: ignore
-            good = isinstance(k, ClassInfo) and repo.is_subclass(k, ioe)
-        n += 1
-        ctx.check(good, m.short, "raise Undefined*Error", "an operator that a value type does not define is an invalid operand error", m.where(), nontrivial=False)
-    for cname in ("_primitive.Boolean", "_primitive.Rational", "_primitive.String", "_container.Set"):
-        c = ctx.cls(EXPR + cname)
-        for name, m in c.methods.items():
-            if name not in any_c.methods or name.startswith("__") or name == "_attribute":
-                continue
-            if len(m.params) < 2:
-                continue  # unary
-            paths = paths_of(m.node)
-            bad = []
-            for p in paths:
-                if p.kind == "fall":
-                    bad.append("falls through")
-                if p.kind == "return" and (p.value is None or (isinstance(p.value, ast.Constant) and p.value.value is None)):
-                    bad.append("returns None")
-                if p.kind == "raise":
-                    k = repo.resolve_expr(m.module, p.value.func if isinstance(p.value, ast.Call) else p.value, c)
-                    if not (isinstance(k, ClassInfo) and repo.is_subclass(k, ioe)):
-                        bad.append("raises %s" % norm(p.value))
-            # delegating one-liners (return self._generic_x(right, op)) inherit the helper's discipline
-            ctx.check(not bad, m.short, "non-matching operands -> Undefined*Error", "every path returns a value or raises an invalid-operand error", m.where(), bad, nontrivial=False)
-    for helper in ("_generic_compare", "_generic_bitwise", "_generic_arithmetic"):
-        m = ctx.cls(EXPR + "_primitive.Rational").methods[helper]
-        paths = paths_of(m.node)
-        neg = [p for p in paths if p.kind in ("raise", "raise-in-try") and any(not pol and not isinstance(c, tuple) and norm(c) == "isinstance(%s, Rational)" % m.params[1] for c, pol in p.conds)]
-        ctx.check(len(neg) >= 1, m.short, "non-rational right operand -> UndefinedOperatorError", "a rational combined with a non-rational is undefined", m.where())
-    si = ctx.cls(EXPR + "_container.Set").methods["__init__"]
-    src = norm(si.node)
-    ctx.check("len(list_of_elements) < 1" in src.replace("len(list(elements)) < 1", "len(list_of_elements) < 1") and "len(element_types) != 1" in src, si.short, "empty and heterogeneous sets rejected", "sets must be non-empty and homogeneous", si.where())
-    ctx.analysed["C04.R5.any_defaults"] = n
-
-
-def rule_r6(ctx: Ctx) -> None:
-    repo = ctx.repo
-    ctx.rule("C04.R6", "exact decoding and arithmetic: integer literals via int(text without '_', base=0), reals via Fraction(text without '_'); no float()/math.* on value paths of the expression package", min_instances=4)
     pt = ctx.cls("_parser._ParseTreeProcessor")
-    want = {
-        "visit_literal_integer": "_expression.Rational(int(node.text.replace('_', ''), base=0))",
-        "visit_literal_integer_decimal": "_expression.Rational(int(node.text.replace('_', '')))",
-        "visit_literal_real": "_expression.Rational(fractions.Fraction(node.text.replace('_', '')))",
+    try:
+        att = _handler(ctx, m, pt, "op2_attrib")(Sym(_kind_="Node"), [])
+        rec = Recorder("_attribute", result=lambda name: ("attribute", name))
+        got = call(att, Sym(_kind_="value", _attribute=rec, _isa_=frozenset({"Any"})), "name")
+    except (Unfoldable, Raised) as ex:
+        raise AnalysisError("the attribute operator: cannot evaluate: %s" % ex)
+    if isinstance(got, tuple) and len(got) == 2 and isinstance(got[1], AObj) and got[1]._cls_.name == "String":
+        got = (got[0], m.native(got[1]))  # a native name is wrapped into a string value on the way
+    ctx.check(got == ("attribute", "name"), pt.short + ".visit_op2_attrib", "'.' -> value._attribute(name)", "`.` evaluates as the attribute operator of the left operand", pt.module.relpath, repr(got)[:80], rule="C04.R3", nontrivial=False)
+
+
+def rule_r6(ctx: Ctx, m: ExprModel) -> None:
+    repo = ctx.repo
+    ctx.rule("C04.R6", "exact decoding and arithmetic: integer and real literals are decoded to the exact rational they spell (grid of literal texts); no float()/math.* on value paths of the expression package; the value is held as given", min_instances=4)
+    pt = ctx.cls("_parser._ParseTreeProcessor")
+    grid = {
+        "literal_integer_binary": ["0b0", "0b1011", "0B1_0_1", "0b1111_0000"],
+        "literal_integer_octal": ["0o0", "0o17", "0O7_7", "0o123_456"],
+        "literal_integer_hexadecimal": ["0x0", "0xFF", "0Xde_ad", "0x1234_5678_9ABC"],
+        "literal_integer_decimal": ["0", "7", "1_000", "123456789012345678901234567890"],
+        "literal_real_point_notation": ["0.5", "1_0.2_5", ".125", "123456789.000000000001"],
+        "literal_real_exponent_notation": ["1e3", "1.5e-3", "2_5E+0_2", "1e-30", "12.5e1"],
     }
-    for m, w in want.items():
-        fn = pt.methods.get(m)
-        c = _single_call_return(fn) if fn else None
-        ctx.check(c is not None and norm(c) == w, pt.short + "." + m, norm(c) if c else "?", "literals are decoded exactly", fn.where() if fn else pt.module.relpath)
+    for rule, texts in grid.items():
+        if rule not in Grammar.load(repo).rules:
+            raise AnalysisError("grammar rule %s missing" % rule)
+        # the value is produced by the handler of the rule itself or, when the rule has none (lifted), of the enclosing form
+        chain = [rule, "literal_integer" if "integer" in rule else "literal_real"]
+        hname = next((r for r in chain if repo.lookup_method(pt, "visit_" + r) is not None or repo.lookup_class_attr(pt, "visit_" + r) is not None), None)
+        if hname is None:
+            raise AnalysisError("no handler decodes %s" % rule)
+        h = _handler(ctx, m, pt, hname)
+        bad = []
+        for t in texts:
+            clean = t.replace("_", "")
+            want = Fraction(int(clean, 0)) if "integer" in rule and not clean.isdigit() else (Fraction(int(clean)) if "integer" in rule else Fraction(clean))
+            try:
+                r = h(Sym(_kind_="Node", text=t, _isa_=frozenset({"Node"})), [Sym(_kind_="Node", text=t)])
+                got = m.native(r)
+            except Raised as ex:
+                got = "raises " + ex.cls_name
+            except Unfoldable as ex:
+                raise AnalysisError("visit_%s(%r): cannot evaluate: %s" % (hname, t, ex))
+            ctx.count()
+            if got != want or isinstance(got, float):
+                bad.append({"literal": t, "found": repr(got), "expected": str(want)})
+        ctx.check(not bad, pt.short + ".visit_" + hname + " <- " + rule, ", ".join(texts[:3]) + ", ...", "literals are decoded exactly", pt.module.relpath, bad[:3])
     offenders = []
     for fn in repo.all_functions().values():
         if not fn.module.name.startswith("pydsdl._expression"):
@@ -500,20 +644,24 @@ def rule_r6(ctx: Ctx) -> None:
             if isinstance(x, ast.Constant) and isinstance(x.value, float):
                 offenders.append("%s: float literal %r" % (fn.short, x.value))
     ctx.check(not offenders, "_expression/*", "no float()/round()/math.*/float literals", "expression values are exact rationals", "pydsdl/_expression", offenders)
-    rat = ctx.cls(EXPR + "_primitive.Rational")
-    init = rat.methods["__init__"]
-    stores = [norm(s.value) for s in walk_no_nested(init.node) if isinstance(s, ast.Assign) and norm(s.targets[0]) == "self._value"]
-    ctx.check(stores == ["fractions.Fraction(value)"], init.short, str(stores), "the value is held as an exact Fraction", init.where())
+    # the value class holds what it is given (symbolic number in, the same number out)
+    x = QV("x", False)
+    try:
+        got = m.native(m.value("Rational", x))
+    except Unfoldable as ex:
+        raise AnalysisError("Rational(x).native_value: cannot evaluate: %s" % ex)
+    ctx.check(isinstance(got, QV) and got.term == "x", EXPR + "_primitive.Rational", "Rational(x).native_value is x", "the value is held as the exact number given", "pydsdl/_expression/_primitive.py", repr(got))
 
 
 def run(ctx: Ctx) -> None:
     g = Grammar.load(ctx.repo)
     ctx.analysed["grammar_rules"] = len(g.rules)
+    m = ExprModel(ctx)
     levels = rule_r1(ctx, g)
+    ctx.attempt(rule_r1_fold, ctx, m, levels)
     ctx.attempt(rule_r2, ctx, g)
-    ctx.attempt(rule_r3, ctx, g, levels)
-    ctx.attempt(rule_r4, ctx)
-    ctx.attempt(rule_r5, ctx)
-    ctx.attempt(rule_r6, ctx)
+    ctx.attempt(rule_r3_r4_r5, ctx, g, m)
+    ctx.attempt(rule_r6, ctx, m)
     ctx.assume("fractions.Fraction and the operator module are exact (trusted stdlib); a fractional power may yield a float (outside the property's quantifier)")
-    ctx.undecided("the arithmetic of Fraction, the values of string escapes, set algebra values")
+    ctx.assume("symbolic operands: an arbitrary integer, an arbitrary non-integer, zero, arbitrary strings, the two booleans, every pair of non-empty subsets of a three-element pool")
+    ctx.undecided("the arithmetic of Fraction itself, the values of string escapes")
